@@ -504,7 +504,13 @@ void vk_run_case(vk::Choice& c) {
   Env env; g_env = &env; Env& e = env;
   g_probe_next = g_probe_cleanup = g_probe_both = 0;
   int forced = (int)cx.argi("pipe", -1);
-  int pi = forced >= 0 ? forced % NPIPES : (int)c.upto(NPIPES);
+  // --require-stage=K: only pipelines containing that adaptor (C18 runs the pipelines with a type_erase stage)
+  static std::vector<int> subset; static bool subset_done = false;
+  if (!subset_done) {
+    subset_done = true; long rk = cx.arg("require-stage") == "type_erase" ? (long)K_TE : -1;
+    for (int i = 0; i < NPIPES; ++i) { Desc t; PIPES[i].desc(t); bool has = rk < 0; for (int k : t.stages) if (k == rk) has = true; if (has) subset.push_back(i); }
+  }
+  int pi = forced >= 0 ? forced % NPIPES : subset[c.upto((uint32_t)subset.size())];
   Desc d; PIPES[pi].desc(d);
   int consumer = (int)c.upto(3);
   int limit = -1;
